@@ -18,7 +18,8 @@ theorem openPartCount_view (s : StreamSt) :
 theorem hasPart_view (s : StreamSt) (m p : Nat) :
     s.hasPart m p = (if m = s.view.nextSegmentID then
         decide (p < (match s.view.openSeg with | some g => g.2.length | none => 0))
-      else hasPartScan s.view.nextSegmentID (match s.view.openSeg with | some g => g.2.length | none => 0) s.view.segments m p) := by
+      else hasPartScan s.view.nextSegmentID (match s.view.openSeg with | some g => g.2.length | none => 0)
+        (s.view.nextSegmentID - s.view.segments.length) s.view.segments m p) := by
   unfold StreamSt.hasPart
   rw [openPartCount_view]
   rfl
@@ -28,57 +29,77 @@ theorem hasPart_of_view {s s' : StreamSt} (h : s'.view = s.view) (m p : Nat) : s
 
 /-! ## scan lemmas that need no invariant -/
 
-theorem scan_mono_op (next op op' : Nat) (hop : op ≤ op') (l : List Entry) (m p : Nat)
-    (h : hasPartScan next op l m p = true) : hasPartScan next op' l m p = true := by
-  induction l generalizing m p with
+theorem scan_mono_op (next op op' : Nat) (hop : op ≤ op') (k : Nat) (l : List Entry) (m p : Nat)
+    (h : hasPartScan next op k l m p = true) : hasPartScan next op' k l m p = true := by
+  induction l generalizing k m p with
   | nil =>
     simp only [hasPartScan, decide_eq_true_eq] at h ⊢
     exact ⟨h.1, by omega⟩
   | cons e r ih =>
     cases e with
-    | gap d => exact ih m p h
+    | gap d =>
+      unfold hasPartScan at h ⊢
+      split
+      · rename_i h1; rw [if_pos h1] at h; exact ih _ _ _ h
+      · rename_i h1; rw [if_neg h1] at h; exact ih _ _ _ h
     | seg g =>
       unfold hasPartScan at h ⊢
       split
       · split
-        · rename_i h1 h2; rw [if_pos h1, if_pos h2] at h; exact ih _ _ h
+        · rename_i h1 h2; rw [if_pos h1, if_pos h2] at h; exact ih _ _ _ h
         · rfl
-      · rename_i h1; rw [if_neg h1] at h; exact ih _ _ h
+      · rename_i h1; rw [if_neg h1] at h; exact ih _ _ _ h
 
 /-- appending the finished open segment: whatever matched (in the list or in the open segment) still matches -/
-theorem scan_append (next : Nat) (g : Seg) (hg : g.id = next) (l : List Entry) (m p : Nat)
-    (h : hasPartScan next g.parts.length l m p = true) :
-    hasPartScan (next + 1) 0 (l ++ [.seg g]) m p = true := by
-  induction l generalizing m p with
+theorem scan_append (next : Nat) (g : Seg) (hg : g.id = next) (k : Nat) (l : List Entry) (m p : Nat)
+    (h : hasPartScan next g.parts.length k l m p = true) :
+    hasPartScan (next + 1) 0 k (l ++ [.seg g]) m p = true := by
+  induction l generalizing k m p with
   | nil =>
     simp only [hasPartScan, decide_eq_true_eq] at h
     simp only [List.nil_append, hasPartScan, hg, h.1, if_true]
     have : ¬ p ≥ g.parts.length := by omega
     rw [if_neg this]
   | cons e r ih =>
+    simp only [List.cons_append]
     cases e with
-    | gap d => exact ih m p h
+    | gap d =>
+      unfold hasPartScan at h ⊢
+      split
+      · rename_i h1; rw [if_pos h1] at h; exact ih _ _ _ h
+      · rename_i h1; rw [if_neg h1] at h; exact ih _ _ _ h
     | seg q =>
-      simp only [List.cons_append]
       unfold hasPartScan at h ⊢
       split
       · split
-        · rename_i h1 h2; rw [if_pos h1, if_pos h2] at h; exact ih _ _ h
+        · rename_i h1 h2; rw [if_pos h1, if_pos h2] at h; exact ih _ _ _ h
         · rfl
-      · rename_i h1; rw [if_neg h1] at h; exact ih _ _ h
+      · rename_i h1; rw [if_neg h1] at h; exact ih _ _ _ h
 
-theorem scan_gaps (next op : Nat) (d : Int) (l : List Entry) (m p : Nat) :
-    hasPartScan next op (gaps d ++ l) m p = hasPartScan next op l m p := by
-  simp [gaps, llGapCount, List.replicate, hasPartScan]
+/-- a request at or beyond MSN 7 walks over the seven initial gaps (MSN 0..6) -/
+theorem scan_gaps (next op : Nat) (d : Int) (l : List Entry) (m p : Nat) (hm : 7 ≤ m) :
+    hasPartScan next op 0 (gaps d ++ l) m p = hasPartScan next op 7 l m p := by
+  have h0 : m ≠ 0 := by omega
+  have h1 : m ≠ 1 := by omega
+  have h2 : m ≠ 2 := by omega
+  have h3 : m ≠ 3 := by omega
+  have h4 : m ≠ 4 := by omega
+  have h5 : m ≠ 5 := by omega
+  have h6 : m ≠ 6 := by omega
+  simp [gaps, llGapCount, List.replicate, hasPartScan, h0, h1, h2, h3, h4, h5, h6]
 
 theorem scan_le_next (next op : Nat) (l : List Entry) (k m p : Nat) (hw : WinFrom k l) (hk : k + l.length ≤ next)
-    (h : hasPartScan next op l m p = true) : m ≤ next := by
+    (h : hasPartScan next op k l m p = true) : m ≤ next := by
   induction l generalizing k m p with
   | nil => simp only [hasPartScan, decide_eq_true_eq] at h; omega
   | cons e r ih =>
     simp only [List.length_cons] at hk
     cases e with
-    | gap d => exact ih (k + 1) m p hw.2 (by omega) h
+    | gap d =>
+      unfold hasPartScan at h
+      split at h
+      · omega
+      · exact ih (k + 1) m p hw.2 (by omega) h
     | seg g =>
       unfold hasPartScan at h
       split at h
@@ -88,13 +109,16 @@ theorem scan_le_next (next op : Nat) (l : List Entry) (k m p : Nat) (hw : WinFro
 
 /-- the open segment's parts are found by the scan as well -/
 theorem scan_at_next (next op : Nat) (l : List Entry) (k p : Nat) (hw : WinFrom k l) (hk : k + l.length ≤ next)
-    (hp : p < op) : hasPartScan next op l next p = true := by
+    (hp : p < op) : hasPartScan next op k l next p = true := by
   induction l generalizing k with
   | nil => simp [hasPartScan, hp]
   | cons e r ih =>
     simp only [List.length_cons] at hk
     cases e with
-    | gap d => exact ih (k + 1) hw.2 (by omega)
+    | gap d =>
+      unfold hasPartScan
+      rw [if_neg (by omega)]
+      exact ih (k + 1) hw.2 (by omega)
     | seg g =>
       unfold hasPartScan
       have : next ≠ g.id := by have := hw.1; omega
@@ -106,7 +130,8 @@ theorem scan_at_next (next op : Nat) (l : List Entry) (k p : Nat) (hw : WinFrom 
 def View.openCount (v : View) : Nat := match v.openSeg with | some g => g.2.length | none => 0
 
 def View.hasPart (v : View) (m p : Nat) : Bool :=
-  if m = v.nextSegmentID then decide (p < v.openCount) else hasPartScan v.nextSegmentID v.openCount v.segments m p
+  if m = v.nextSegmentID then decide (p < v.openCount)
+  else hasPartScan v.nextSegmentID v.openCount (v.nextSegmentID - v.segments.length) v.segments m p
 
 theorem hasPart_eq_view (s : StreamSt) (m p : Nat) : s.hasPart m p = s.view.hasPart m p := hasPart_view s m p
 
@@ -163,7 +188,7 @@ theorem rotP_mono (st : State) (si : Nat) (d : Int) (b : Bool) (part : Part) (se
     · rename_i hm; rw [if_pos hm] at h
       simp only [decide_eq_true_eq] at h ⊢; omega
     · rename_i hm; rw [if_neg hm] at h
-      exact scan_mono_op _ _ _ (Nat.le_succ _) _ _ _ h
+      exact scan_mono_op _ _ _ (Nat.le_succ _) _ _ _ _ h
   · have hid'' : id < (st.stream si).nextPartID := hid'
     rw [lookup_regPath_ne _ _ _ _ (by simp; omega), lookup_regPath_ne _ _ _ _ (by simp; omega)]
 
@@ -198,48 +223,79 @@ theorem rotSegRest_mono (st : State) (si : Nat) (d n : Int) (f : Bool) (seg : Se
     · exact Nat.le_refl _
   · have h8 : (st.stream si).nextSegmentID + 1 = 7 := (hfresh h0).1
     omega
-  · -- step 1: the scan over the old window with the old open segment
-    have hA : hasPartScan (st.stream si).nextSegmentID seg.parts.length (st.stream si).segments m p = true := by
+  · -- the scan over the window after appending the finished segment (and the initial gaps)
+    have hB : hasPartScan ((st.stream si).nextSegmentID + 1) 0 (st.stream si).deleteCount segs1 m p = true ∧
+        m ≤ (st.stream si).nextSegmentID := by
       unfold View.hasPart View.openCount at h
       simp only [hos] at h
       have h' : (if m = (st.stream si).nextSegmentID then decide (p < seg.parts.length)
-          else hasPartScan (st.stream si).nextSegmentID seg.parts.length (st.stream si).segments m p) = true := h
-      split at h'
-      · rename_i hm; subst hm
-        exact scan_at_next _ _ _ _ _ hw hklen (by simpa using h')
-      · exact h'
-    have hmle : m ≤ (st.stream si).nextSegmentID := scan_le_next _ _ _ _ _ _ hw hklen hA
-    -- step 2/3: after appending the finished segment (and the initial gaps)
-    have hB : hasPartScan ((st.stream si).nextSegmentID + 1) 0 segs1 m p = true := by
-      have := scan_append (st.stream si).nextSegmentID { seg with endDTS := d } hsid (st.stream si).segments m p hA
-      rw [← hsegs]
-      unfold winAppend
-      split
-      · rename_i he
-        have he' : (st.stream si).segments = [] := by simpa using he.2
-        rw [he', List.nil_append] at this
-        rw [scan_gaps]; exact this
-      · exact this
-    -- step 4/5: after the delete step
+          else hasPartScan (st.stream si).nextSegmentID seg.parts.length
+            ((st.stream si).nextSegmentID - (st.stream si).segments.length) (st.stream si).segments m p) = true := h
+      by_cases he : (st.stream si).segments = []
+      · -- first rotation: the request can only name the open segment 7
+        obtain ⟨h7, h0⟩ := hinv.fresh he
+        have h7' : (st.stream si).nextSegmentID = 7 := h7
+        have h0' : (st.stream si).deleteCount = 0 := h0
+        have hm : m = (st.stream si).nextSegmentID ∧ p < seg.parts.length := by
+          split at h'
+          · rename_i hm; exact ⟨hm, by simpa using h'⟩
+          · rw [he] at h'; simpa [hasPartScan] using h'
+        refine ⟨?_, by omega⟩
+        rw [← hsegs, h0']
+        unfold winAppend
+        rw [he]
+        simp only [List.isEmpty_nil, and_self, if_true]
+        rw [scan_gaps _ _ _ _ _ _ (by omega)]
+        have hid : seg.id = m := by omega
+        simp only [hasPartScan, hid, if_true]
+        have : ¬ p ≥ seg.parts.length := by omega
+        rw [if_neg this]
+      · have hk : (st.stream si).nextSegmentID - (st.stream si).segments.length = (st.stream si).deleteCount := by
+          have hl0 : (st.stream si).deleteCount + (st.stream si).segments.length = (st.stream si).nextSegmentID :=
+            hinv.len he
+          omega
+        rw [hk] at h'
+        have hA : hasPartScan (st.stream si).nextSegmentID seg.parts.length (st.stream si).deleteCount
+            (st.stream si).segments m p = true := by
+          split at h'
+          · rename_i hm; subst hm
+            exact scan_at_next _ _ _ _ _ hw hklen (by simpa using h')
+          · exact h'
+        refine ⟨?_, scan_le_next _ _ _ _ _ _ hw hklen hA⟩
+        have := scan_append (st.stream si).nextSegmentID { seg with endDTS := d } hsid _ (st.stream si).segments m p hA
+        rw [← hsegs]
+        unfold winAppend
+        rw [if_neg (by simp [he])]
+        exact this
+    obtain ⟨hB, hmle⟩ := hB
     have hne : m ≠ (st.stream si).nextSegmentID + 1 := by omega
     show m ≤ (if _ then _ else _) ∨ (if m = (st.stream si).nextSegmentID + 1 then _ else
-      hasPartScan ((st.stream si).nextSegmentID + 1) 0 (if segs1.length > st.cfg.segmentCount then segs1.tail else segs1) m p) = true
+      hasPartScan ((st.stream si).nextSegmentID + 1) 0
+        ((st.stream si).nextSegmentID + 1 - (if segs1.length > st.cfg.segmentCount then segs1.tail else segs1).length)
+        (if segs1.length > st.cfg.segmentCount then segs1.tail else segs1) m p) = true
     rw [if_neg hne]
     by_cases hgt : segs1.length > st.cfg.segmentCount
     · rw [if_pos hgt, if_pos hgt]
       cases hs1 : segs1 with
       | nil => rw [hs1] at hlen1'; simp only [List.length_nil] at hlen1'; omega
       | cons e r =>
-        rw [hs1] at hB hw1'
-        simp only [List.tail_cons]
+        rw [hs1] at hB hw1' hlen1'
+        simp only [List.tail_cons, List.length_cons] at hlen1' ⊢
+        rw [show (st.stream si).nextSegmentID + 1 - r.length = (st.stream si).deleteCount + 1 by omega]
         cases e with
-        | gap g0 => exact .inr hB
+        | gap g0 =>
+          unfold hasPartScan at hB
+          by_cases hm : m = (st.stream si).deleteCount
+          · left; omega
+          · rw [if_neg hm] at hB; exact .inr hB
         | seg q =>
           unfold hasPartScan at hB
           by_cases hm : m = q.id
           · left; have := hw1'.1; omega
           · rw [if_neg hm] at hB; exact .inr hB
-    · rw [if_neg hgt, if_neg hgt]; exact .inr hB
+    · rw [if_neg hgt, if_neg hgt]
+      rw [show (st.stream si).nextSegmentID + 1 - segs1.length = (st.stream si).deleteCount by omega]
+      exact .inr hB
   · rw [hlook]
     split
     · exact .inr rfl
